@@ -27,7 +27,7 @@ class CUnanalysable(Exception):
 # ---------------------------------------------------------------------------
 # difference-bound matrix over symbols
 
-SYMS = ['0', 'n', 'p', 'q', MAXS]
+SYMS = ['0', 'n', 'p', 'q', 'i', MAXS]
 
 
 class DBM:
@@ -73,6 +73,32 @@ class DBM:
 
     def eq(self, x, y):
         return self.le(x, y) and self.le(y, x)
+
+
+CANDIDATES = ('i==q', 'i==p', '0<=i', 'i<=n')
+
+
+def apply_candidate(d, c, i, p, q):
+    if c == 'i==q':
+        d.assume_le(i, q); d.assume_le(q, i)
+    elif c == 'i==p':
+        d.assume_le(i, p); d.assume_le(p, i)
+    elif c == '0<=i':
+        d.assume_le(('0', 0), i)
+    elif c == 'i<=n':
+        d.assume_le(i, ('n', 0))
+
+
+def holds_candidate(d, c, i, p, q):
+    if c == 'i==q':
+        return d.eq(i, q)
+    if c == 'i==p':
+        return d.eq(i, p)
+    if c == '0<=i':
+        return d.le(('0', 0), i)
+    if c == 'i<=n':
+        return d.le(i, ('n', 0))
+    return False
 
 
 def lf_add(x, c):
@@ -170,6 +196,15 @@ class Opaque:
         self.what = what
 
 
+class RangeIt:
+    """`start..end` used as an iterator (both ends linear forms)."""
+    def __init__(self, start, end):
+        self.start = start
+        self.end = end
+    def __repr__(self):
+        return 'RangeIt(%s,%s)' % (self.start, self.end)
+
+
 class CheckedSub:
     """Option<usize> returned by a.checked_sub(b): Some(a-b) iff b <= a."""
     def __init__(self, a, b):
@@ -209,10 +244,14 @@ class LoopInterp:
         self.ok = True
 
     def fail(self, oid, props, where, msg, key):
+        if getattr(self, 'quiet', False):
+            return
         self.ok = False
         self.ctx.add(props, oid, where, msg, key=key)
 
     def discharged(self, oid, where, text):
+        if getattr(self, 'quiet', False):
+            return
         self.obl.append({'id': oid, 'where': where, 'text': text})
 
     # -- role inference: which captured counter indexes reads (q) and which indexes writes (p)
@@ -302,7 +341,7 @@ class LoopInterp:
             if e == 'deref':
                 if isinstance(v, CellRef):
                     v = Num(st.cells[v.k])
-                elif isinstance(v, (SliceRef, ConvRef, SlotRef, MURef)):
+                elif isinstance(v, (SliceRef, ConvRef, SlotRef, MURef, RangeIt)):
                     pass   # deref of a reference we model by the reference itself
                 else:
                     v = Opaque('deref')
@@ -421,6 +460,8 @@ class LoopInterp:
                     return Opt(fields[0] if rv['variant'] == 'Some' else None)
                 if a == 'core::result::Result':
                     return En('Result', rv['variant'], fields[0] if fields else None)
+                if a == 'core::ops::range::Range' and len(fields) == 2 and all(isinstance(f, Num) and f.lf is not None for f in fields):
+                    return RangeIt(fields[0].lf, fields[1].lf)
                 return En(a, rv.get('variant'), fields[0] if len(fields) == 1 else Tup(fields))
             return Opaque('aggregate')
         if k == 'discr':
@@ -451,8 +492,58 @@ class LoopInterp:
         return dbm.consistent()
 
     # -- the walk
-    def run(self, head):
-        """Interpret from the loop head with the invariant 0<=p<=q<=n<=MAX assumed."""
+    def prologue(self, head):
+        """Interprets the closure from its entry to the loop head (the counters are 0 there, O1) and returns
+        the iterator locals it set up: {local: RangeIt}.  Anything else it could do to the buffer or the
+        counters is refused by `call` / `assign`."""
+        st = LoopState()
+        st.cells = {self.roles['p']: ('0', 0), self.roles['q']: ('0', 0)}
+        st.dbm.assume_le(('0', 0), ('n', 0))
+        st.dbm.assume_le(('n', 0), (MAXS, 0))
+        self.exits = []
+        work = [(st, 0, True)]
+        arrived = []
+        steps = 0
+        while work:
+            st, bb, first = work.pop()
+            while True:
+                steps += 1
+                if steps > 2000:
+                    raise CUnanalysable('prologue too long')
+                if bb == head:
+                    arrived.append(st)
+                    break
+                t = self.b.blocks[bb]['term']
+                if t['k'] == 'call':
+                    pth = callee_path(t) or ''
+                    dcl = callee_decl_path(t) or ''
+                    if not (pth == 'core::slice::<impl [T]>::len' or dcl.endswith('IntoIterator::into_iter')):
+                        raise CUnanalysable('closure prologue calls %s' % pth)
+                nxt = self.block(st, bb, work)
+                if nxt is None:
+                    break
+                bb = nxt
+        if any(e[0] != 'unwind' or True for e in self.exits) and self.exits:
+            raise CUnanalysable('the closure can leave before its loop')
+        its = None
+        # the iterator locals the loop actually advances (borrowed inside the loop)
+        in_loop = self.b.reachable(head, unwind=False)
+        borrowed = set()
+        for bb_, _, s2 in self.b.statements():
+            if bb_ in in_loop and s2['k'] == 'assign' and s2['rv']['k'] == 'ref' and not s2['rv']['place']['p']:
+                borrowed.add(s2['rv']['place']['l'])
+        for s_ in arrived:
+            cur = {l: v for l, v in s_.L.items() if isinstance(v, RangeIt) and l in borrowed and (self.b.local_ty(l) or '').startswith('core::ops::range::Range<')}
+            if s_.events:
+                raise CUnanalysable('closure prologue touches the buffer or the counters')
+            if its is not None and {l: (v.start, v.end) for l, v in cur.items()} != {l: (v.start, v.end) for l, v in its.items()}:
+                raise CUnanalysable('different iterators reach the loop head')
+            its = cur
+        return its or {}
+
+    def run(self, head, ranges=None, assume=None):
+        """Interpret from the loop head with the invariant 0<=p<=q<=n<=MAX assumed (plus, for a loop
+        driven by a `start..end` iterator, the candidate facts in `assume` about its position `i`)."""
         st = LoopState()
         st.cells = {self.roles['p']: ('p', 0), self.roles['q']: ('q', 0)}
         d = st.dbm
@@ -460,6 +551,10 @@ class LoopInterp:
         d.assume_le(('p', 0), ('q', 0))
         d.assume_le(('q', 0), ('n', 0))
         d.assume_le(('n', 0), (MAXS, 0))
+        for l, r in (ranges or {}).items():
+            st.L[l] = RangeIt(('i', 0), r.end)
+        for c in assume or []:
+            apply_candidate(d, c, ('i', 0), ('p', 0), ('q', 0))
         self.exits = []
         work = [(st, head, True)]
         steps = 0
@@ -661,6 +756,26 @@ class LoopInterp:
         elif p in ('core::num::<impl usize>::checked_sub', 'core::num::<impl usize>::checked_add') and isinstance(args[0], Num) and isinstance(args[1], Num) \
                 and args[0].lf is not None and args[1].lf is not None and args[1].lf[0] == '0' and p.endswith('checked_sub'):
             ret = CheckedSub(args[0].lf, args[1].lf)
+        elif (decl or '').endswith('IntoIterator::into_iter') and args and isinstance(args[0], RangeIt):
+            ret = args[0]
+        elif (decl or '').endswith('Iterator::next') and args and isinstance(args[0], RangeIt) and 'Range<' in (p or ''):
+            r = args[0]
+            home = [l for l, v in st.L.items() if v is r and (self.b.local_ty(l) or '').startswith('core::ops::range::Range<')]
+            if len(home) != 1:
+                raise CUnanalysable('cannot find the range iterator advanced at %s' % where)
+            if t['t'] is None or t['dest']['p']:
+                raise CUnanalysable('Range::next at %s' % where)
+            s_none = st.fork()
+            s_none.dbm.assume_le(r.end, r.start)
+            if s_none.dbm.consistent():
+                s_none.L[t['dest']['l']] = En('Option', 'None', None)
+                work.append((s_none, t['t'], False))
+            st.dbm.assume_lt(r.start, r.end)
+            if not st.dbm.consistent():
+                return None
+            st.L[home[0]] = RangeIt(lf_add(r.start, 1), r.end)
+            st.L[t['dest']['l']] = En('Option', 'Some', Num(r.start))
+            return t['t']
         elif p == 'core::mem::maybe_uninit::MaybeUninit::<T>::uninit':
             ret = MU(tys[-1] if tys else None)
         elif p == 'core::mem::maybe_uninit::MaybeUninit::<T>::as_mut_ptr':
@@ -816,24 +931,67 @@ def run(ctx, crate, label):
 
 def loop_rules(ctx, crate, body, info, conv, label):
     li = LoopInterp(ctx, body, info['cell_fields'], info['slice_field'], info['conv_field'], label)
-    li.infer_roles()
+    try:
+        li.infer_roles()
+    except CUnanalysable:
+        # the loop does not index the buffer with the counters themselves (e.g. it is driven by a
+        # `0..len` iterator): the roles are those the outer function gives the counters — the one
+        # handed to set_len on success counts the outputs, the other one the inputs consumed
+        ob, odefs = info['outer'], info['defs']
+        inv = {l: k for k, l in info['cell_locals'].items()}
+        produced = set()
+        for bb, t in ob.calls():
+            if callee_path(t) == 'alloc::vec::Vec::<T, A>::set_len' and op_int(t['args'][1]) is None:
+                l = op_local(t['args'][1])
+                for _ in range(6):
+                    if l is None or l in inv:
+                        break
+                    d = single_def(odefs, l)
+                    l = op_local(d[3]['rv']['op']) if d and d[0] == 'stmt' and d[3]['rv']['k'] == 'use' else None
+                if l in inv:
+                    produced.add(inv[l])
+        if len(produced) != 1:
+            raise
+        pk = produced.pop()
+        li.roles = {'p': pk, 'q': [k for k in info['cell_fields'] if k != pk][0]}
     # the roles must match the outer function's: produced counter feeds set_len, etc.
     info['roles'] = li.roles
     heads = find_loop_head(body)
     if len(heads) != 1:
         raise CUnanalysable('expected exactly one loop in the conversion closure, found heads %s' % sorted(heads))
     head = heads.pop()
-    # entry reaches the head without touching counters or the slice
-    for bb in sorted(body.reachable(0, removed_blocks=[head])):
-        blk = body.blocks[bb]
-        if blk['cleanup']:
-            continue
-        for s in blk['stmts']:
-            if s['k'] == 'assign' and s['place']['p']:
-                raise CUnanalysable('closure prologue writes through %s' % place_str(s['place']))
-        if blk['term']['k'] == 'call':
-            raise CUnanalysable('closure prologue calls %s' % callee_path(blk['term']))
-    exits = li.run(head)
+    # entry reaches the head without touching counters or the slice (it may set up a `start..end` iterator)
+    ranges = li.prologue(head)
+    assume = []
+    if ranges:
+        if len(ranges) != 1:
+            raise CUnanalysable('several range iterators drive the loop')
+        r0 = list(ranges.values())[0]
+        if r0.start != ('0', 0) or r0.end != ('n', 0):
+            raise CUnanalysable('the loop iterator is %s..%s, expected 0..len' % (lf_str(r0.start), lf_str(r0.end)))
+        # facts about the iterator position that hold on entry (all counters are 0 there); keep those
+        # that every way round the loop re-establishes
+        assume = list(CANDIDATES)
+        li.quiet = True
+        for _ in range(len(CANDIDATES) + 1):
+            ex = li.run(head, ranges, assume)
+            keep = []
+            for c in assume:
+                ok = True
+                for kind, st, bb in ex:
+                    if kind != 'back':
+                        continue
+                    rl = [v for l, v in st.L.items() if l in ranges and isinstance(v, RangeIt)]
+                    if len(rl) != 1 or not holds_candidate(st.dbm, c, rl[0].start, st.cells[li.roles['p']], st.cells[li.roles['q']]):
+                        ok = False
+                if ok:
+                    keep.append(c)
+            if keep == assume:
+                break
+            assume = keep
+        li.quiet = False
+        li.discharged('O1', body.span(), 'loop driven by 0..len: position facts kept by every iteration: %s' % ', '.join(assume))
+    exits = li.run(head, ranges, assume)
     kinds = defaultdict(int)
     P, Q = li.roles['p'], li.roles['q']
     for kind, st, bb in exits:
@@ -870,7 +1028,7 @@ def loop_rules(ctx, crate, body, info, conv, label):
             convs = [e for e in evs if e[0] == 'convert']
             if len(takes) != 1 or len(convs) != 1 or len(stores) > 1:
                 li.fail('O4', ['C08'], where, 'one iteration takes %d inputs, calls the converter %d times and stores %d outputs' % (len(takes), len(convs), len(stores)), 'once-per-iteration')
-            elif qc != ('q', 1) or pc not in (('p', 0), ('p', 1)) or (pc == ('p', 1)) != (len(stores) == 1):
+            elif not st.dbm.eq(qc, ('q', 1)) or not (st.dbm.eq(pc, ('p', 0)) or st.dbm.eq(pc, ('p', 1))) or st.dbm.eq(pc, ('p', 1)) != (len(stores) == 1):
                 li.fail('O4', ['C08'], where, 'one iteration moves consumed to %s and produced to %s with %d stores' % (lf_str(qc), lf_str(pc), len(stores)), 'progress')
             else:
                 li.discharged('O4', where, 'iteration: one input taken in order, one converter call, %d output stored, consumed+1' % len(stores))
@@ -1402,6 +1560,32 @@ def classify_arms(b, res_local, bb_cu):
 def cleanup_closure_rules(ctx, crate, outer, cb, info, roles, conv, label):
     """O6: iterates Index<Range>{0, produced} dropping each as U and {consumed, len} dropping each as T."""
     defs = local_defs(cb)
+    param_role = {}
+    if info.get('cleanup_is_fn'):
+        # a function: its parameters get their roles from the arguments at the call sites (all agree)
+        odefs0 = info['defs']
+        sites = [t for bb, t in outer.calls() if callee_path(t) == info['cleanup_closure']]
+        for t in sites:
+            roles_here = {}
+            for i, a in enumerate(t['args']):
+                l = op_local(a)
+                for _ in range(6):
+                    if l is None or l in info['cell_locals'].values():
+                        break
+                    d = single_def(odefs0, l)
+                    if d and d[0] == 'stmt' and d[3]['rv']['k'] == 'use':
+                        l = op_local(d[3]['rv']['op'])
+                    else:
+                        break
+                if l == info['cell_locals'][roles['p']]:
+                    roles_here[i + 1] = 'p'
+                elif l == info['cell_locals'][roles['q']]:
+                    roles_here[i + 1] = 'q'
+                elif (cb.local_ty(i + 1) or '').replace('mut ', '') == '&[T]':
+                    roles_here[i + 1] = 'slice'
+            if param_role and roles_here != param_role:
+                ctx.add(['C09'], 'O6', fmt_span(t['span']), 'the cleanup routine is called with different arguments on different paths', key='cleanup-args')
+            param_role = roles_here
     # which captured field is which counter: match capture operands in the outer aggregate
     cap = None
     for c, fields, bb, s in info.get('closures', []):
@@ -1429,6 +1613,8 @@ def cleanup_closure_rules(ctx, crate, outer, cb, info, roles, conv, label):
             return str(iv)
         st = trace_value(cb, defs, op)
         t = st[-1]
+        if t[0] == 'param' and t[1] in param_role:
+            return param_role[t[1]]
         if t[0] == 'call' and callee_path(t[1]) == 'core::slice::<impl [T]>::len':
             return 'n'
         if t[0] == 'place' and t[1]['p'] == ['deref']:
@@ -1451,18 +1637,77 @@ def cleanup_closure_rules(ctx, crate, outer, cb, info, roles, conv, label):
             if rv[0] == 'rv' and rv[1]['k'] == 'aggregate' and rv[1].get('adt') == 'core::ops::range::Range':
                 lo, hi = rv[1]['fields']
                 ranges.append((bb, describe(lo), describe(hi), t))
+            elif rv[0] == 'rv' and rv[1]['k'] == 'aggregate' and rv[1].get('adt') == 'core::ops::range::RangeTo':
+                ranges.append((bb, '0', describe(rv[1]['fields'][0]), t))
+            elif rv[0] == 'rv' and rv[1]['k'] == 'aggregate' and rv[1].get('adt') == 'core::ops::range::RangeFrom':
+                ranges.append((bb, describe(rv[1]['fields'][0]), 'n', t))
+            elif (rv[0] == 'rv' and rv[1]['k'] == 'aggregate' and rv[1].get('adt') == 'core::ops::range::RangeFull') or (rv[0] == 'const' and 'RangeFull' in str(rv[1].get('ty'))):
+                ranges.append((bb, '0', 'n', t))
             else:
                 ranges.append((bb, '?', '?', t))
     # per range: the loop that follows assume_init::<X> and drops it. Pair by dominance order.
-    inits = []
-    for bb, t in cb.calls():
-        if callee_path(t) == 'core::mem::maybe_uninit::MaybeUninit::<T>::assume_init':
-            X = callee_ty_args(t)[-1]
+    READS = ('core::ptr::read', 'core::ptr::const_ptr::<impl *const T>::read', 'core::ptr::mut_ptr::<impl *mut T>::read',
+             'core::ptr::read_unaligned', 'core::ptr::const_ptr::<impl *const T>::read_unaligned')
+
+    def element_reads(body):
+        """(block, type read, dropped?, term) for every value brought back out of the slice in `body`."""
+        out = []
+        for bb, t in body.calls():
+            p = callee_path(t)
+            X = None
+            if p == 'core::mem::maybe_uninit::MaybeUninit::<T>::assume_init':
+                X = callee_ty_args(t)[-1]
+            elif p in READS:
+                X = callee_ty_args(t)[-1]
+            if X is None:
+                continue
             dest = t['dest']['l']
-            dropped = any(blk['term']['k'] == 'drop' and blk['term']['place']['l'] == dest and not blk['term']['place']['p'] for blk in cb.blocks)
-            inits.append((bb, X, dropped, t))
+            dropped = any(blk['term']['k'] == 'drop' and blk['term']['place']['l'] == dest and not blk['term']['place']['p'] for blk in body.blocks)
+            if not dropped:
+                # handed to mem::drop (possibly after a move)
+                ddefs = local_defs(body)
+                for bb2, t2 in body.calls():
+                    if callee_path(t2) == 'core::mem::drop' and t2['args']:
+                        s_ = trace_value(body, ddefs, t2['args'][0])[-1]
+                        if s_[0] == 'call' and s_[1] is t:
+                            dropped = True
+            out.append((bb, X, dropped, t))
+        return out
+
+    inits = element_reads(cb)
     dom = cb.dominators(unwind=False)
     got = []
+    # sweeps written as `<subslice>.iter().for_each(|element| …)`: the closure handles one element
+    for_each = {}
+    for bb, t in cb.calls():
+        if (callee_path(t, resolved=False) or '').endswith('Iterator::for_each') and len(t['args']) == 2:
+            cl = trace_value(cb, defs, t['args'][1])[-1]
+            if cl[0] == 'rv' and cl[1].get('ak') == 'closure':
+                fb = crate.lookup(cl[1]['closure'])
+                if fb is not None:
+                    for_each[bb] = (t, fb)
+    for (bb, lo, hi, t) in ranges:
+        mine_fe = [(fbb, ft, fb) for fbb, (ft, fb) in for_each.items() if bb in dom.get(fbb, set()) and
+                   not any(r[0] != bb and bb in dom.get(r[0], set()) and r[0] in dom.get(fbb, set()) for r in ranges)]
+        for fbb, ft, fb in mine_fe:
+            # the iterator consumed is the one over this subslice
+            src = trace_value(cb, defs, ft['args'][0])[-1]
+            sub_ok = False
+            for _ in range(6):
+                if src[0] == 'call' and src[1] is t:
+                    sub_ok = True
+                    break
+                if src[0] == 'call' and src[1]['args']:
+                    src = trace_value(cb, defs, src[1]['args'][0])[-1]
+                    continue
+                break
+            rds = element_reads(fb)
+            if not sub_ok or len(rds) != 1:
+                ctx.add(['C09'], 'O6', fmt_span(ft['span']), 'cannot tell what this sweep does with each element (%d reads in the closure)' % len(rds), key='cleanup-foreach')
+                continue
+            got.append((lo, hi, rds[0][1], rds[0][2]))
+            if not rds[0][2]:
+                ctx.add(['C09'], 'O6', fmt_span(rds[0][3]['span']), 'cleanup brings an element back as %s but never drops it' % rds[0][1], key='cleanup-nodrop-%s' % rds[0][1])
     for (bb, lo, hi, t) in ranges:
         # assume_inits dominated by this range and not by a later range
         later = [r[0] for r in ranges if r[0] != bb and bb in dom.get(r[0], set())]
